@@ -196,22 +196,107 @@ def displaced_pair(rng, la, lb, emax=40.0):
 
 
 # --------------------------------------------------------------------------------- builders
+def _arr_rep(vals, kind):
+    """The same float64 numbers in another legitimate in-memory representation (see props.common.rep)."""
+    a = np.array(vals, dtype=float)
+    if kind == "f":
+        return np.asfortranarray(a)
+    if kind == "strided":
+        big = np.full(tuple(2 * n for n in a.shape), 7.25, dtype=float)
+        sl = tuple(slice(None, None, 2) for _ in a.shape)
+        big[sl] = a
+        return big[sl]
+    if kind == "readonly":
+        a.flags.writeable = False
+        return a
+    if kind == "neg":
+        return np.ascontiguousarray(a[::-1])[::-1]
+    if kind == "T":  # transposed view of the (M, K) array a parser would hold
+        return np.ascontiguousarray(a.T).T
+    if kind == "1d" and a.ndim == 2 and a.shape[1] == 1:
+        return np.ascontiguousarray(a[:, 0])
+    if kind == "row" and a.ndim == 1:  # coordinates as a (1, 3) row: `coord.size == 3` is what the shell class asks for
+        return a.reshape(1, 3)
+    if kind == "int" and np.array_equal(a, np.rint(a)):
+        return np.array(a, dtype=int)
+    return a
+
+
 def build(shells, cls=None):
-    """gbasis shell objects from descriptors (fresh arrays every time)."""
+    """gbasis shell objects from descriptors (fresh arrays every time).
+
+    Optional descriptor keys (all leave the numbers unchanged, the reference model never sees them):
+      "dup_key"  the same shell OBJECT listed more than once (add_dup)
+      "rep"      {"k"|"e"|"c": representation} in-memory representation of the coefficient / exponent / centre array
+                 handed to the constructor (Fortran order, strided view, read-only, negative strides, transposed view,
+                 1-D coefficients, integer centre), and "t": "short" for the one-letter coordinate type
+      "share"    key: shells with the same key are given the same centre ndarray OBJECT (what make_contractions does for
+                 the shells of one atom); "share_e": the same exponent ndarray object
+    """
     from gbasis.contractions import GeneralizedContractionShell
 
     cls = cls or GeneralizedContractionShell
     out = []
-    shared = {}
+    shared, coords, expsobj = {}, {}, {}
     for s in shells:
         key = s.get("dup_key")
         if key is not None and key in shared:
             out.append(shared[key])  # the same shell OBJECT listed more than once (see add_dup)
             continue
-        out.append(cls(int(s["l"]), np.array(s["c"], dtype=float), np.array(s["k"], dtype=float),
-                       np.array(s["e"], dtype=float), TYPES[s["t"]]))
+        rep = s.get("rep") or {}
+        coord = _arr_rep(s["c"], rep.get("c", "c"))
+        if s.get("share") is not None:
+            coord = coords.setdefault((s["share"], tuple(s["c"])), coord)
+        exps = _arr_rep(s["e"], rep.get("e", "c"))
+        if s.get("share_e") is not None:
+            exps = expsobj.setdefault((s["share_e"], tuple(s["e"])), exps)
+        coeffs = _arr_rep(s["k"], rep.get("k", "c"))
+        ctype = s["t"] if rep.get("t") == "short" else TYPES[s["t"]]
+        out.append(cls(int(s["l"]), coord, coeffs, exps, ctype))
         if key is not None:
             shared[key] = out[-1]
+    return out
+
+
+ARG_REPS = {"k": ["f", "strided", "readonly", "neg", "T", "1d"], "e": ["strided", "readonly", "neg"], "c": ["strided", "readonly", "neg", "int"]}
+
+
+def add_argrep(rng, shells, classes):
+    """Every shell's constructor arguments in a random legitimate representation; shells on one centre share the centre
+    array object and shells with identical exponents the exponent array (as the shells of one atom do after
+    ``make_contractions``). An integer centre is used only where the coordinates are integer-valued already."""
+    shells = [dict(s) for s in shells]
+    used = set()
+    for s in shells:
+        rep = {}
+        for which in ("k", "e", "c"):
+            if rng.random() < 0.6:
+                kind = str(rng.choice(ARG_REPS[which]))
+                if kind == "1d" and len(s["k"][0]) != 1:
+                    kind = "T"
+                if kind == "int" and any(float(v) != round(float(v)) for v in s["c"]):
+                    kind = "neg"
+                rep[which] = kind
+        if rng.random() < 0.4:
+            rep["t"] = "short"
+        s["rep"] = rep
+        if rng.random() < 0.5:
+            s["share"] = "g"
+        if rng.random() < 0.5:
+            s["share_e"] = "g"
+        used.update("%s=%s" % kv for kv in rep.items())
+    return shells, list(classes) + ["argrep"] + sorted("argrep:" + u for u in used)
+
+
+def argrep_variants(pid, seed, tier, cases, every, ok=None):
+    """copies of every ``every``-th case with the shell constructor arguments in other representations (add_argrep)"""
+    out = []
+    for i, c in enumerate(cases):
+        if i % every == every // 3 and (ok is None or ok(c)):
+            rng = rng_for(pid, seed, tier, "argrep", i)
+            d = dict(c)
+            d["shells"], d["classes"] = add_argrep(rng, c["shells"], c.get("classes", []))
+            out.append(d)
     return out
 
 
